@@ -32,7 +32,9 @@ type Ver struct {
 	Parse   func(string) (Obj, error)
 	Zero    func() Obj
 	Rating  func(float64) (string, error) // nil for 2.0
-	ErrKind func(error) ErrK
+	// ParseRaw calls ParseVector without wrapping the result (allocation measurements)
+	ParseRaw func(string) error
+	ErrKind  func(error) ErrK
 }
 
 // ErrK is the spec-level classification of an error value.
@@ -148,7 +150,8 @@ var versions = map[string]*Ver{
 			}
 			return &o20{*p}, err
 		},
-		Zero: func() Obj { return &o20{} },
+		Zero:     func() Obj { return &o20{} },
+		ParseRaw: func(s string) error { p, err := gocvss20.ParseVector(s); rawSink20 = p; return err },
 		ErrKind: func(err error) ErrK {
 			if err == nil {
 				return ErrK{"none", ""}
@@ -180,8 +183,9 @@ var versions = map[string]*Ver{
 			}
 			return &o30{*p}, err
 		},
-		Zero:   func() Obj { return &o30{} },
-		Rating: gocvss30.Rating,
+		Zero:     func() Obj { return &o30{} },
+		ParseRaw: func(s string) error { p, err := gocvss30.ParseVector(s); rawSink30 = p; return err },
+		Rating:   gocvss30.Rating,
 		ErrKind: func(err error) ErrK {
 			if err == nil {
 				return ErrK{"none", ""}
@@ -227,8 +231,9 @@ var versions = map[string]*Ver{
 			}
 			return &o31{*p}, err
 		},
-		Zero:   func() Obj { return &o31{} },
-		Rating: gocvss31.Rating,
+		Zero:     func() Obj { return &o31{} },
+		ParseRaw: func(s string) error { p, err := gocvss31.ParseVector(s); rawSink31 = p; return err },
+		Rating:   gocvss31.Rating,
 		ErrKind: func(err error) ErrK {
 			if err == nil {
 				return ErrK{"none", ""}
@@ -274,8 +279,9 @@ var versions = map[string]*Ver{
 			}
 			return &o40{*p}, err
 		},
-		Zero:   func() Obj { return &o40{} },
-		Rating: gocvss40.Rating,
+		Zero:     func() Obj { return &o40{} },
+		ParseRaw: func(s string) error { p, err := gocvss40.ParseVector(s); rawSink40 = p; return err },
+		Rating:   gocvss40.Rating,
 		ErrKind: func(err error) ErrK {
 			if err == nil {
 				return ErrK{"none", ""}
@@ -304,3 +310,10 @@ var versions = map[string]*Ver{
 }
 
 var verOrder = []string{"2.0", "3.0", "3.1", "4.0"}
+
+var (
+	rawSink20 *gocvss20.CVSS20
+	rawSink30 *gocvss30.CVSS30
+	rawSink31 *gocvss31.CVSS31
+	rawSink40 *gocvss40.CVSS40
+)
